@@ -54,7 +54,9 @@ F64 = [0.0, -0.0, 1.0, float("inf"), float("-inf"), float("nan"), 1.797693134862
 HFIELDS = [("msg_count", I32), ("send_time", F64), ("recv_time", F64), ("src_host", I16), ("src_mod", I16),
            ("dest_host", I16), ("dest_mod", I16), ("remaining", I32), ("is_dynamic", I32), ("reserved", U32)]
 NAMES = [b"", b"a" * 31, b"b" * 32, b"\xff" * 32, b"\xff", "né".encode(), "名前".encode(), b"ab\0cd", b"\0" * 32,
-         b"\x80abc", b"ok\xfe", bytes(range(1, 33))]
+         b"\x80abc", b"ok\xfe", bytes(range(1, 33)),
+         # printable names that mean something to a formatter or a console renderer
+         b"[/x]", b"rig[/b]", b"[bold]x", b"[/]", b"%s%d%(x)s %", b"{0}{name}{", b"[link=x]y"]
 STAGES = ["accepted", "connected", "subscribed", "suball", "logger"]
 
 
@@ -120,11 +122,13 @@ def catalogue(tier, rng):
     for lg, dm, src in itertools.product(I16, [0, 1], I16 + [100, 101, 200]):
         add("connect_v1_fields", "accepted", [(fr(W.MT_CONNECT, W.p_connect(lg, dm), src_mod=src), 1)], note=f"logger={lg} daemon={dm} src={src}")
     for nm in NAMES:
+        # (the named client goes on to subscribe, unsubscribe and publish: whatever mentions its name has to cope)
+        follow = [(fr(W.MT_SUBSCRIBE, W.p_sub(T)), 1), (fr(W.MT_UNSUBSCRIBE, W.p_sub(T)), 1), (fr(T, b"\x11" * 8), 1)]
         for mid in (0, 31):
             add("connect_v2_name", "accepted", [(fr(W.MT_CONNECT_V2, W.p_connect_v2(0, 0, 0, mid, 1, nm), src_mod=mid), 1),
-                                                (fr(W.MT_CONNECT, W.p_connect(0, 0), src_mod=mid), 1)], note=f"name={nm!r} mod_id={mid}")
+                                                (fr(W.MT_CONNECT, W.p_connect(0, 0), src_mod=mid), 1)] + follow, note=f"name={nm!r} mod_id={mid}")
         for st in ("connected", "subscribed", "logger"):
-            add("set_name", st, [(fr(W.MT_CLIENT_SET_NAME, struct.pack("<32s", nm)), 1)], note=f"name={nm!r}")
+            add("set_name", st, [(fr(W.MT_CLIENT_SET_NAME, struct.pack("<32s", nm)), 1)] + follow, note=f"name={nm!r}")
     for t in I32 + [ALL, 9999, 10000, -10000]:
         for mt in (W.MT_SUBSCRIBE, W.MT_UNSUBSCRIBE, W.MT_PAUSE, W.MT_RESUME):
             for st in ("connected", "suball"):
@@ -197,6 +201,9 @@ def gen_cases(tier, seed):
         dup = f["stage"] == "accepted" and (tier == "thorough" or i % 3 == 0 or (whole and f["close"]) or f["kind"] == "connect_v2_name")
         if tier == "quick" and f["kind"] == "length":
             dup = True      # (the quick tier draws one stage per fault: these are repeated for the pre-handshake stage)
+        if f["kind"] in ("connect_v2_name", "set_name"):
+            # DEBUG-level manager with its console handler on (rendering into the null device)
+            cases.append({"mode": "single", "fault": f, "tc": False, "loud": 3, "offender_first": i % 2 == 0})
         if dup:
             # the same fault from a peer that already receives everything, the manager publishing its own log messages
             cases.append({"mode": "single", "fault": dict(f, stage="presub_all"), "tc": False, "loud": True,
@@ -278,7 +285,7 @@ def run_case(case, tier):
     if case["mode"] == "flood":
         return run_flood(case)
     tc = bool(case.get("tc"))
-    rig = ManagerRig(stepped=True, timecode=tc, loud=bool(case.get("loud")),
+    rig = ManagerRig(stepped=True, timecode=tc, loud=(3 if case.get("loud") == 3 else bool(case.get("loud"))),
                      send_msg_timing=not case.get("fault", {}).get("notiming", False))
     try:
         sc = Scenario(rig, 0)
